@@ -53,7 +53,7 @@ R = Harness(
     bound_text=lambda tier: (
         "histories of 3 ops over <=3 contexts: create_child, add_resource (ok single/multi type, invalid name, None value), "
         "add_resource_factory (sync single, async multi, None among types), lookups via nowait/await/inject; a permanent listener on every context plus a "
-        "short-lived one that a `drop` operation cancels in the middle of its stream; "
+        "slow one (1-slot queue, never reads, subscribed first) that a `drop` operation cancels in the middle of its stream; "
         "events compared after every step and after the final generating probes"
         if tier == "quick"
         else "histories of 4 ops, plus a second name, a teardown-callback add, a non-callable teardown callback"
@@ -65,3 +65,94 @@ R = Harness(
 )
 
 HARNESSES = [R]
+
+
+# ------------------------------------------------------------------------------ G-reuse
+import gc  # noqa: E402
+
+import anyio  # noqa: E402
+
+from .common import pick, run  # noqa: E402
+
+from asphalt.core import Context  # noqa: E402
+
+
+def reuse_params(tier):
+    return [P("touch1", 0, 1), P("nested", 0, 1)]
+
+
+@guard
+def reuse_fn(a, tier):
+    """Many generations of short-lived contexts, steered onto previously used memory addresses
+    (the normal life of per-request contexts in a long-running program)."""
+    touch1, nested = pick(a["touch1"], 2), pick(a["nested"], 2)
+    out = {"uses": {}, "problems": []}
+
+    async def main():
+        async with anyio.create_task_group() as tg:
+            async with Context() as root:
+                dead = set()
+                monitors = []  # (generation, sink): streams that are never closed
+
+                async def listen(ctx, sink, *, task_status):
+                    async with ctx.resource_added.stream_events() as stream:
+                        task_status.started()
+                        async for ev in stream:
+                            sink.append(ev)
+
+                for gen in range(40):
+                    keep = []
+                    ctx = None
+                    for _ in range(60):
+                        c = Context(root)
+                        if not dead or id(c) in dead:
+                            ctx = c
+                            break
+                        keep.append(c)
+                    if ctx is None:
+                        ctx = Context(root)
+                    del keep
+                    addr = id(ctx)
+                    out["uses"][addr] = out["uses"].get(addr, 0) + 1
+                    sink = []
+                    before = [len(sk) for _, sk in monitors]
+                    async with ctx:
+                        if gen % 2 == 0 or touch1:
+                            await tg.start(listen, ctx, sink)
+                            monitors.append((gen, sink))
+                        ctx.add_resource(object(), f"r{gen}", [T0])
+                        await anyio.wait_all_tasks_blocked()
+                        after = [len(sk) for _, sk in monitors]
+                        for (g, sk), b4, af in zip(monitors, before + [0], after):
+                            if g != gen and af != b4:
+                                out["problems"].append(f"generation {gen}'s publication reached the monitor of dead generation {g}")
+                        if sink is monitors[-1][1] and (len(sink) != 1 or sink[0].source is not ctx):
+                            out["problems"].append(f"generation {gen}: own listener got {[(e.resource_name, e.source is ctx) for e in sink]}")
+                    dead.add(addr)
+                    del ctx, c
+                    gc.collect()
+            tg.cancel_scope.cancel()
+
+    _, exc, _k = run(main)
+    reused3 = sum(1 for v in out["uses"].values() if v >= 3)
+    summary = {"generations": 40, "addresses_used_three_times_or_more": reused3}
+    if exc is not None:
+        return FAIL(f"reuse:raised:{type(exc).__name__}", repr(exc), summary)
+    if out["problems"]:
+        return FAIL("reuse:publication-announced-on-a-dead-contexts-signal-or-with-a-wrong-source", out["problems"][:3], summary)
+    return OK(summary, nontrivial=reused3 > 0)
+
+
+REUSE = Harness(
+    prop="C18",
+    name="G-reuse",
+    fn=reuse_fn,
+    params=reuse_params,
+    cube=lambda tier: 0,
+    title="40 generations of short-lived contexts steered onto previously used memory addresses",
+    bound_text=lambda tier: "each generation: allocate until a previously used id() comes back (<=60 tries), enter, attach a monitor that is never closed, publish, leave, collect",
+    oracle="every publication reaches only its own generation's listener, with that context as source",
+    outside="relies on CPython handing the freed address out again (otherwise the path is counted as trivial)",
+    stubs=STUBS_COMMON,
+)
+HARNESSES.append(REUSE)
